@@ -292,9 +292,13 @@ def run(prog: Program, chk: Check):
     hg = C.build(ch.node)
     hgs = flow.guard_states(hg)
     ackv = [path_of(n.targets[0]) for n in walk_local(ch.node) if isinstance(n, ast.Assign) and isinstance(n.value, ast.Call) and self_call("_wait_for_acknowledgement")(n.value)]
-    adopt = [n for n in hg.nodes if n.kind == "stmt" and isinstance(n.ast, ast.Assign) and any(path_of(t) == "self._module_id" for t in n.ast.targets)
+    # the attribute behind the public `module_id` property (self._module_id today)
+    mid_prop = prog.cls(CLI, "Client").methods.get("module_id")
+    mid_ret = [norm(r.value) for r in walk_local(mid_prop.node) if isinstance(r, ast.Return) and r.value is not None] if mid_prop is not None else []
+    idattr = mid_ret[0] if len(mid_ret) == 1 and mid_ret[0].startswith("self.") else "self._module_id"
+    adopt = [n for n in hg.nodes if n.kind == "stmt" and isinstance(n.ast, ast.Assign) and any(path_of(t) == idattr for t in n.ast.targets)
              and ackv and norm(n.ast.value) == f"{ackv[0]}.header.dest_mod_id"]
-    okk = len(adopt) == 1 and not guards.any_path_implies(hgs.at(adopt[0]), guards.parse("self._module_id == 0"))
+    okk = len(adopt) == 1 and not guards.any_path_implies(hgs.at(adopt[0]), guards.parse(f"{idattr} == 0"))
     K.decide(okk, fkey(ch, "adopt-ack-id"), where(ch), "self._module_id = ack.header.dest_mod_id under `self._module_id == 0`",
              "_connect_helper does not adopt the acknowledged id under the == 0 guard")
     # a client created with id 0 asks for a dynamic id on EVERY connect: the reset dominates the CONNECT_V2 construction
